@@ -390,6 +390,10 @@ impl<F: Float> Arithmetic<F> {
         let n = self.count as f64;
         let mean = self.sample_mean().try_f64("stats.mean")?;
         let std_dev = self.sample_std_dev().try_f64("stats.std_dev")?;
+        if !mean.is_finite() || !std_dev.is_finite() {
+            // NaN or infinite observations (or sums that overflowed)
+            return Err(CIError::InvalidInputData);
+        }
         let std_err_mean = std_dev / n.sqrt();
         let degrees_of_freedom = n - 1.;
         let (lo, hi) = stats::interval_bounds(confidence, mean, std_err_mean, degrees_of_freedom);
